@@ -63,6 +63,8 @@ class FreeClient(Client):
             on_this = n.get('obj') is None or A.root(n['obj'], self.linit)[0] == 'this'
             if on_this and n.get('amc') and n.get('fn') is not None and getattr(self, 'calls', None) is not None:
                 self.calls.setdefault(n['fn'], []).append(s)       # the state a private helper is entered with
+            if on_this and n.get('fn') in getattr(self, 'resetters', ()):
+                s = s | {'reset'}                                    # the callee gives the storage pointer a new value
             if sn in ('freeStorage', 'destroyFreeStorage') and on_this:
                 return [('n', (s - {'heap'}) | {'freed'})]
             if sn == 'deallocate' and n.get('args') and is_this_storage(n['args'][0], self.linit):
@@ -72,7 +74,9 @@ class FreeClient(Client):
                 handed_over = src is not None and any(A.cshort(c) in ('Reallocate', 'reallocate') for c in A.calls(src))
                 ok = handed_over or 'freed' in s or 'noheap' in s
                 self.report(n, ok, s)
-                return [('n', s)]
+                return [('n', s | {'reset'})]
+            if sn == 'resetToSmall' and on_this:
+                return [('n', s | {'reset'})]
             return [('n', s)]
         # (_capa, _size) <- (0, inplaceCapa): `this` becomes an empty inline vector; a heap block it owned must be gone by now
         if n.get('op') == '=':
@@ -83,7 +87,7 @@ class FreeClient(Client):
                     return [('n', s | {'zero'})]
                 if lhs0.get('name') == '_size' and 'zero' in s and rhs0.get('k') == 'ref' and rhs0.get('dk') == 'param':
                     self.report(n, 'freed' in s or 'noheap' in s, s)
-                    return [('n', s - {'zero'})]
+                    return [('n', (s - {'zero'}) | {'reset'})]
         # `_storage = X` in StdVectorBase
         if n.get('op') == '=':
             lhs = A.strip(n.get('lhs'))
@@ -93,6 +97,7 @@ class FreeClient(Client):
                 handed_over = src is not None and any(A.cshort(c) in ('Reallocate', 'reallocate') for c in A.calls(src))
                 ok = handed_over or 'freed' in s or 'noheap' in s
                 self.report(n, ok, s)
+                return [('n', s | {'reset'})]
         return [('n', s)]
 
 
@@ -113,6 +118,12 @@ def free_all(progs):
         # states with which the (non public) members of the bases are entered from their callers: a helper extracted from
         # move_assign that overwrites the pointer is fine if every caller released the block (or never owned one) before calling it
         entered = {}
+        resetters = set()
+        for g in prog.amc_functions():
+            if g.get('body') is not None and g.get('clsq') in BASES:
+                if any(A.cshort(c) == 'setDyn' for c in A.calls(g['body'])) or \
+                        any(isinstance(A.strip(l), dict) and A.strip(l).get('k') == 'mem' and A.strip(l).get('name') == '_storage' for _st, l in A.stores(g['body'])):
+                    resetters.add(g['id'])
         for f in prog.amc_functions():
             if f.get('body') is None or f.get('clsq') not in BASES:
                 continue
@@ -136,6 +147,7 @@ def free_all(progs):
                 v = sites.setdefault(id(n), [n, True])
                 v[1] = v[1] and ok
             cl = FreeClient(f, linit, report)
+            cl.resetters = resetters
             o = Engine(cl).run(body, frozenset(), f.get('inits'))
             ctx = entered.get(f['id'])
             safe_ctx = f.get('access') != 'public' and bool(ctx) and all(('freed' in st or 'noheap' in st) for st in ctx)
@@ -146,6 +158,13 @@ def free_all(progs):
                     rr.add(Finding('FREE-ALL', '%s|overwrite' % f['key'], prog.site(f, n),
                                    'the storage pointer is overwritten on a path on which the vector may still own a heap block that was not released',
                                    where=f['pname'], unit=prog.uname))
+            if f.get('kind') != 'dtor' and sn not in ('freeStorage', 'destroyFreeStorage', 'deallocate', 'resetToSmall'):
+                dangling = [s_ for s_ in list(o.normal) + [x for x, _ in o.returns] if 'freed' in s_ and 'reset' not in s_]
+                rr.instance('%s|dangling' % f['key'], {'function': f['pname'][:140], 'exits_with_released_block_still_referenced': len(dangling)})
+                if dangling:
+                    rr.add(Finding('FREE-ALL', '%s|dangling' % f['key'], f['loc'],
+                                   'there is a path on which the block is released but the storage pointer is neither reset nor replaced before the function returns: '
+                                   'the vector keeps a dangling pointer and releases the block a second time later', where=f['pname'], unit=prog.uname))
             if sn in RELEASERS:
                 bad = [s for s in list(o.normal) + [x for x, _ in o.returns] if 'heap' in s and 'freed' not in s]
                 rr.instance('%s|release' % f['key'], {'function': f['pname'][:140], 'exit_states': len(o.normal) + len(o.returns), 'heap_paths_without_release': len(bad)})
